@@ -787,3 +787,29 @@ M('r17-8-input-class-extending-string-input', ['C17'], IN, "class EnumInput(Stri
   'the new input class extends StringInput and so has everything the template prints', expect='silent',
   more=[('habutax/form.py', "                            SSNInput)\n", "                            SSNInput,\n                            DateTextInput)\n"),
         (Y22 + 'f1040_s1.py', "            StringInput('alimony_paid_date', description=", "            DateTextInput('alimony_paid_date', description=")])
+M('d4-worksheet-taxes-line-1-twice', ['C07', 'C02'], Y22 + 'f1040_qualdiv_capgain_tax_wkst.py', "            FloatField('22', lambda s, i, v: figure_tax(v['5'], i['1040.filing_status'])),\n", "            FloatField('22', lambda s, i, v: figure_tax(v['1'], i['1040.filing_status'])),\n", None,
+  'the 2022 worksheet line 22 is the tax on line 1 instead of line 5 (what the late-binding loop of seed C07-S amounts to)')
+M('d4-worksheet-amount-through-a-local', ['C07', 'C02'], Y22 + 'f1040_qualdiv_capgain_tax_wkst.py', "            FloatField('22', lambda s, i, v: figure_tax(v['5'], i['1040.filing_status'])),\n", "            FloatField('22', lambda s, i, v: figure_tax(v['1040_qualdiv_capgain_tax_wkst.5'], i['1040.filing_status'])),\n", None,
+  'line 5 named with its form', expect='silent')
+M('k41-threshold-remembers-its-first-answer', ['C03'], 'habutax/form.py', "            for key, value in t.items():\n                if isinstance(key, type(requested_key)):\n                    if key == requested_key:\n                        return value\n",
+  "            if name in self._picked:\n                return self._picked[name]\n            for key, value in t.items():\n                if isinstance(key, type(requested_key)):\n                    if key == requested_key:\n                        self._picked[name] = value\n                        return value\n", 'K41',
+  'Form.threshold() remembers the entry of a keyed table that applied first and hands it to every later key (seed C03-S)',
+  more=[('habutax/form.py', "class Form(object):\n", "class Form(object):\n    _picked = {}\n\n")])
+M('k41-threshold-table-in-a-local', ['C03'], 'habutax/form.py', "            for key, value in t.items():\n                if isinstance(key, type(requested_key)):\n", "            entries = list(t.items())\n            for key, value in entries:\n                if isinstance(key, type(requested_key)):\n", None,
+  'the entries of the table are listed in a local first', expect='silent')
+M('k12c-field-form-adds-the-form', ['C04', 'C03', 'C06'], FI, "        else:\n            return self._form.solver().forms[form_name]\n",
+  "        solver = self._form.solver()\n        if form_name not in solver.forms:\n            solver._add_form(form_name)\n        return solver.forms[form_name]\n", 'K12c',
+  'Field.form(name) adds the named form to the solve when it is not loaded: its required lines appear in the solution although nobody read them (seed C04-T)')
+M('k12c-field-form-through-a-local', ['C04', 'C03', 'C06'], FI, "        else:\n            return self._form.solver().forms[form_name]\n", "        solver = self._form.solver()\n        return solver.forms[form_name]\n", None,
+  'the solver kept in a local', expect='silent')
+M('k13-required-lines-in-a-local', ['C01', 'C04', 'C05', 'C13'], S, "        self._add_unattempted(new_form.required_fields())\n        self._solving_fields |= set([f.name() for f in new_form.required_fields()])\n",
+  "        required = new_form.required_fields()\n        self._add_unattempted(required)\n        self._solving_fields |= {f.name() for f in required}\n", None,
+  'the required lines kept in a local, the set built with a set comprehension', expect='silent')
+M('k13-solving-set-replaced-by-the-last-form', ['C01', 'C04', 'C05', 'C06', 'C13'], S, "        self._add_unattempted(new_form.required_fields())\n        self._solving_fields |= set([f.name() for f in new_form.required_fields()])\n",
+  "        required = new_form.required_fields()\n        self._add_unattempted(required)\n        self._solving_fields = {f.name() for f in required}\n", 'K',
+  'the set of lines being solved is REPLACED by the required lines of the form just added (seed C06-T): lines of earlier forms are queued a second time when somebody reads them')
+M('k24a-waiters-deduplicated-by-line-name', ['C13', 'C06', 'C01'], S, "        if dependency_name not in self._unmet:\n            self._unmet[dependency_name] = [dependent]\n        else:\n            self._unmet[dependency_name].append(dependent)\n",
+  "        waiting = self._unmet.setdefault(dependency_name, [])\n        if dependent.base_name() not in [d.base_name() for d in waiting]:\n            waiting.append(dependent)\n", 'K24a',
+  'a waiter is not recorded when a line of the same NAME (in another form) already waits for the input (seed C13-S)')
+M('k24a-waiters-recorded-with-setdefault', ['C13', 'C06', 'C01'], S, "        if dependency_name not in self._unmet:\n            self._unmet[dependency_name] = [dependent]\n        else:\n            self._unmet[dependency_name].append(dependent)\n",
+  "        self._unmet.setdefault(dependency_name, []).append(dependent)\n", None, 'the same bookkeeping written with setdefault', expect='silent')
